@@ -237,6 +237,34 @@ def structure_to_cif(s, cif):
     return cifgen.cif_text(atoms), cmap
 
 
+def add_hidden_ends(draw, desc):
+    """Turn the chains of a descriptor into ONE chain id without TER records: a chain end that is
+    recognisable only by the OXT of the residue before it (two or three molecules).  Returns True if
+    applied."""
+    if len(desc["chains"]) < 2 or desc.get("cif"):
+        return False
+    a, b = desc["chains"][0], desc["chains"][1]
+    if a["start"] > 9000:
+        a["start"] = 1
+    a["oxt"], a["ter"] = True, False
+    a.pop("nums", None)
+    a.pop("icodes", None)
+    for ch_ in desc["chains"]:
+        ch_.pop("altmod", None)  # a hidden chain end is recognised by an atom NAMED OXT
+    b["id"] = a["id"]
+    b.pop("nums", None)
+    b.pop("icodes", None)
+    b["start"] = a["start"] + len(a["seq"]) + draw(st.sampled_from([0, 0, 5]))
+    if len(desc["chains"]) > 2 and draw(st.booleans()):
+        c = desc["chains"][2]
+        b["oxt"], b["ter"] = True, False
+        c["id"] = a["id"]
+        c.pop("nums", None)
+        c.pop("icodes", None)
+        c["start"] = b["start"] + len(b["seq"]) + draw(st.sampled_from([0, 3]))
+    return True
+
+
 def tip_table(tier="quick"):
     """Finite table of directed clashes: GLY-X-GLY for every residue type X with a side-chain tip,
     a second chain whose one heavy atom sits `gap` beyond each tip of X (so that the hydrogens added
